@@ -889,6 +889,11 @@ class OneToOne(dict):
         for key, val in keys_vals:
             self[key] = val
 
+    def __ior__(self, other):
+        # dict.__ior__ would bypass __setitem__ and leave .inv stale
+        self.update(other)
+        return self
+
     def __repr__(self):
         cn = self.__class__.__name__
         dict_repr = dict.__repr__(self)
